@@ -10,6 +10,7 @@ import (
 	"errors"
 	"fmt"
 	"strings"
+	"time"
 
 	"github.com/csgura/fp"
 	"github.com/csgura/fp/as"
@@ -33,9 +34,9 @@ type tri struct {
 	err     error
 }
 
-func pend() tri            { return tri{pending: true} }
-func succ(v int) tri       { return tri{ok: true, v: v} }
-func fail(e error) tri     { return tri{err: e} }
+func pend() tri        { return tri{pending: true} }
+func succ(v int) tri   { return tri{ok: true, v: v} }
+func fail(e error) tri { return tri{err: e} }
 func (t tri) String() string {
 	switch {
 	case t.pending:
@@ -209,8 +210,8 @@ func onFailure(t tri, f func(e error) tri) tri {
 	return f(t.err)
 }
 
-func inc(v int) int        { return v + 1 }
-func comb(a, b int) int    { return 10*a + b }
+func inc(v int) int         { return v + 1 }
+func comb(a, b int) int     { return 10*a + b }
 func comb3(a, b, c int) int { return 100*a + 10*b + c }
 
 // the extra source referenced from inside callbacks ("s_cb"): always the last source
@@ -416,7 +417,9 @@ func kinds() []*kind {
 		})
 	})
 	// ---------- binary ----------
-	m2 := func(c *ctx, k []func() tri) tri { return inOrder(k, func(v []int) tri { return succ(comb(v[0], v[1])) }) }
+	m2 := func(c *ctx, k []func() tri) tri {
+		return inOrder(k, func(v []int) tri { return succ(comb(v[0], v[1])) })
+	}
 	add("Map2", 2, true, func(c *ctx, k []F) F { return future.Map2(k[0], k[1], comb, c.exec...) }, m2)
 	add("Zip", 2, false, func(c *ctx, k []F) F {
 		return future.Map(future.Zip(k[0], k[1]), func(t fp.Tuple2[int, int]) int { return comb(t.I1, t.I2) }, c.exec...)
@@ -459,9 +462,13 @@ func kinds() []*kind {
 	add("Applicative2.ApTry.ApFuture", 2, false, func(c *ctx, k []F) F {
 		// first operand is a Try taken from kid 0 only when it is already complete; otherwise a fixed success
 		return future.Applicative2(comb).ApTry(try.Success(4)).ApFuture(future.Map2(k[0], k[1], comb, c.exec...))
-	}, func(c *ctx, k []func() tri) tri { return onSuccess(m2(c, k), func(v int) tri { return succ(comb(4, v)) }) })
+	}, func(c *ctx, k []func() tri) tri {
+		return onSuccess(m2(c, k), func(v int) tri { return succ(comb(4, v)) })
+	})
 	// ---------- ternary ----------
-	m3 := func(c *ctx, k []func() tri) tri { return inOrder(k, func(v []int) tri { return succ(comb3(v[0], v[1], v[2])) }) }
+	m3 := func(c *ctx, k []func() tri) tri {
+		return inOrder(k, func(v []int) tri { return succ(comb3(v[0], v[1], v[2])) })
+	}
 	add("Zip3", 3, true, func(c *ctx, k []F) F {
 		return future.Map(future.Zip3(k[0], k[1], k[2]), func(t fp.Tuple3[int, int, int]) int { return comb3(t.I1, t.I2, t.I3) }, c.exec...)
 	}, m3)
@@ -786,6 +793,9 @@ func main() {
 			"atomic loads are not scheduling points of their own (SilentLoads): every load in Promise is either validated by the compare-and-swap that follows it or reads a completed (immutable) result; the promise protocol at full load/CAS granularity is C05's",
 			"two atomic loads of one promise cell commute (ReadsCommute): the plain-memory work between a load and the thread's next atomic step is order independent; the one place where it is not (the callback slice) is covered by C05 without this reduction",
 			"user callbacks do not panic (only Apply/Apply2/Func* promise to capture panics)",
+		}
+		if r.Thorough() {
+			r.Deadline = 90 * time.Minute
 		}
 		if !mc.Instrumented {
 			panic("C06 must be built with the overlay (-tags verifrt)")
